@@ -666,7 +666,55 @@ def comp_target_only(S, m):
     return isinstance(S, Sc) and S.kind != 'comp' and m in comp_targets_of(S) and binding_kinds(S, m) == {'unknown'}
 
 
-def classify(b, sc, raw, m, exp, ekind, alt, o):
+KEY_COMP_EARLY = 'comprehension-target-read-before-bound-resolves-outward'
+KEY_COMP_NESTED = 'comprehension-target-read-in-nested-scope-resolves-outward'
+
+
+def inside(sc, anc):
+    while sc is not None:
+        if sc is anc:
+            return True
+        sc = sc.parent
+    return False
+
+
+def owning_comp(sc, m):
+    """nearest comprehension lexically containing the read that has m as iteration variable"""
+    s = sc
+    while s is not None:
+        if s.kind == 'comp' and m in s.targets:
+            return s
+        s = s.parent
+    return None
+
+
+def _contains(node, pos):
+    return (node.lineno, node.col_offset) <= pos and pos < (node.end_lineno, node.end_col_offset)
+
+
+def read_before_bound(b, comp, pos, m):
+    """the read sits in the iterable of generator i (i >= 1) or in a condition of generator i, and every generator
+    that binds m comes at or after i (iterable) / after i (condition): evaluated before m is bound"""
+    gens = comp.node.generators
+    first = None
+    for j, g in enumerate(gens):
+        for n in ast.walk(g.target):
+            if type(n) is ast.Name and type(n.ctx) is ast.Store and mangle(comp.private, n.id) == m:
+                first = j if first is None else first
+    if first is None:
+        return False
+    for i, g in enumerate(gens):
+        if i and _contains(g.iter, pos):
+            return first >= i
+        for c in g.ifs:
+            if _contains(c, pos):
+                return first > i
+        if _contains(g.target, pos):
+            return first >= i
+    return False
+
+
+def classify(b, sc, raw, m, exp, ekind, alt, o, node_pos=(0, 0)):
     """mechanism label from the syntactic features of the failing read."""
     rs = sc.noncomp()
     decl = getattr(alt, 'declared_at', None)
@@ -686,8 +734,13 @@ def classify(b, sc, raw, m, exp, ekind, alt, o):
     # family A: supp files comprehension variables under the enclosing scope's locals, so a scope that has the
     # identifier ONLY as a comprehension variable shows it after/outside the comprehension, to nested scopes,
     # and is taken for the owner by free-variable / nonlocal owner lookup
-    if o_is_scope and (o is rs or o.kind != 'class') and comp_target_only(o, m):
-        return KEY_COMP_TARGET + suffix
+    if o_is_scope and (o is rs or o.kind != 'class'):
+        if comp_target_only(o, m):
+            return KEY_COMP_TARGET + suffix
+        if alt_is_comp_target and alt_comp.noncomp() is o and not inside(sc, alt_comp):
+            # the alternative IS a comprehension variable of o and the read is outside that comprehension
+            # (whatever global/nonlocal declaration o has for the identifier)
+            return KEY_COMP_TARGET + suffix
     if exp is not GLOBAL_OWNERS and not o_is_scope:
         # family B: the compiler does not apply a class body's global declaration to the comprehensions
         # (function-like scopes) nested in that body, supp does
@@ -713,6 +766,15 @@ def classify(b, sc, raw, m, exp, ekind, alt, o):
             return 'wrong-owner:stopped-at-nearer-%s,expected-%s(%s)%s' % (owner_kind(o, sc), e.kind, ekind, suffix)
         # supp looked past the compiler's owner (or somewhere unrelated): it has no binding of the name there
         if via_comp:
+            comp = owning_comp(sc, m)
+            if comp is not None:
+                if ekind == 'free-comp-target':
+                    # read in a lambda/def/generator nested in the comprehension: supp resolves nested scopes
+                    # against the END of the enclosing scope, where 'before the comprehension' and the
+                    # comprehension's regions are joined
+                    return KEY_COMP_NESTED + suffix
+                if read_before_bound(b, comp, node_pos, m):
+                    return KEY_COMP_EARLY + suffix
             return 'comprehension-target-of-%s-scope-not-seen-from-%s,got-%s%s' % (
                 e.kind, 'nested-scope' if rs is not e else 'comprehension', owner_kind(o, sc), suffix)
         if e.kind in ('function', 'lambda'):
@@ -912,7 +974,7 @@ def analyse(text, filename, root, part, origin, case_extra=None):
                 continue
             if o in exp:
                 continue
-            mech = classify(b, sc, raw, m, exp, ekind, alt, o)
+            mech = classify(b, sc, raw, m, exp, ekind, alt, o, (node.lineno, node.col_offset))
             if class_binders and isinstance(o, Sc) and o in class_binders:
                 part.count('subclaim1_violations')
             if local_here:
